@@ -1,4 +1,6 @@
 import BM.Props.C14
+import BM.Proofs.Nesting
+import BM.Proofs.Bytes
 /-
   C09: well-nested input yields well-nested output.  Proved (event level, every policy):
   * an element dropped for lack of attributes and its own end tag cancel: the start tag
@@ -11,12 +13,14 @@ import BM.Props.C14
     still matched afterwards;
   * the stack discipline is an invariant (`StackInv`, C14): markers always have their
     element below them.
-  The induction over whole well-nested documents (output well-nested) is checked by
-  `oracleC09` on the exhaustively enumerated documents of the `directed` family; its proof is
-  future work (it needs the render/tokenize round trip for the output side).
+  The whole-document statement is `C09_events` (every policy without AllowUnsafe: the written
+  tokens are well nested whenever the input's tokens are — by the simulation `nest_run` of
+  `Proofs/Nesting.lean`, which shows that the five state variables of the loop are a function
+  of the open elements of the input) and, for plain policies, `C09_bytes` (what a tokenizer
+  reads from the returned bytes is well nested).
 -/
 namespace BM.Props
-open BM BM.Html
+open BM BM.Html BM.Spec
 
 /-- start tag of an element dropped for lack of attributes: pushed, only a space written -/
 theorem dropped_start (p : Policy) (st : LoopState) (t : Token) (aps : AttrRules)
@@ -57,6 +61,81 @@ theorem marker_popped (st : LoopState) (el : Bytes) (rest : List Bytes)
     (hflag : st.skipClosingTag = true) (hstack : st.closingTagToSkipStack = (47 :: el) :: rest) :
     (popMarker st el).closingTagToSkipStack = rest ∧ (popMarker st el).skipClosingTag = true := by
   simp [popMarker, hflag, hstack]
+
+/-! ### whole documents -/
+
+/-- **C09 (event level, every policy without AllowUnsafe, every input)**: if the input's
+    non-void elements are properly opened and closed, the loop does not panic and what it
+    writes is the serialisation of a token list with the same property — whatever is dropped,
+    skipped, kept, nested in same-named dropped elements, or void. -/
+theorem C09_events (p : Policy) (hu : p.ensureInit.allowUnsafe = false) (input : Bytes)
+    (hwn : wellNested (tokenize input) = true) :
+    ∃ ws toks, p.ensureInit.run {} (tokenize input) = (ws, false) ∧
+      RunWrites p.ensureInit (tokenize input) ws toks ∧ wellNested toks = true :=
+  nest_run p.ensureInit hu (tokenize input) [] {} (abs_init _) (tokenizeAux_nameOK _ _ _) hwn
+
+/-- a written token of a plain policy is covered by the round trip -/
+theorem prov_segOK {p : Policy} (hp : Plain p) {t k : Token} (hwf : TokWF t) (h : Prov p t k) : SegOK k := by
+  rcases h with rfl | ⟨rfl, htt⟩ | ⟨aps, attrs, hr, hc, rfl, htt⟩
+  · simp [SegOK]
+  · rcases htt with h | h | ⟨_, hcm⟩
+    · unfold SegOK; rw [h]; trivial
+    · unfold SegOK TokWF at *; rw [h] at hwf ⊢; exact hwf
+    · rw [hp.noComments] at hcm; cases hcm
+  · have hall := attrRulesFor_allows' hr
+    have hnr : isRawTagName t.data = false := by
+      cases h : isRawTagName t.data with
+      | false => rfl
+      | true => rw [hp.noRaw _ h] at hall; cases hall
+    rcases htt with h | h
+    · have hw : NameOK' t.data ∧ ∀ a ∈ t.attrs, AttrOK a := by
+        unfold TokWF at hwf; rw [h] at hwf; exact hwf
+      unfold SegOK; simp only [h]
+      exact ⟨hw.1, hnr, allOK_cleanAttrs p t aps attrs hw.2 hc⟩
+    · have hw : NameOK' t.data ∧ ∀ a ∈ t.attrs, AttrOK a := by
+        unfold TokWF at hwf; rw [h] at hwf; exact hwf
+      unfold SegOK; simp only [h]
+      exact ⟨hw.1, hnr, allOK_cleanAttrs p t aps attrs hw.2 hc⟩
+
+/-- merging adjacent texts does not change the nesting -/
+theorem wn_coalesce : ∀ (ts : List Token) (d : Bytes) (S : List Bytes),
+    wellNestedAux S (coalesce d ts) = wellNestedAux S ts
+  | [], d, S => by
+    simp only [coalesce, flushText]
+    split <;> simp [wellNestedAux]
+  | t :: ts, d, S => by
+    simp only [coalesce]
+    split
+    · rename_i h
+      have ht : t.tt = .text := by revert h; cases t.tt <;> intro h <;> first | rfl | exact absurd h (by decide)
+      rw [wn_coalesce ts]
+      simp [wellNestedAux, ht]
+    · have hflush : ∀ rest, wellNestedAux S (flushText d ++ rest) = wellNestedAux S rest := by
+        intro rest
+        unfold flushText; split <;> simp [wellNestedAux]
+      rw [hflush]
+      simp only [wellNestedAux]
+      cases htt : t.tt <;> simp only [wn_coalesce ts]
+
+/-- **C09 (byte level, plain policies)**: if the tokens of the input are well nested, so are the
+    tokens an HTML tokenizer reads from the returned bytes. -/
+theorem C09_bytes (p : Policy) (hp : Plain p.ensureInit) (input : Bytes)
+    (hwn : wellNested (tokenize input) = true) : wellNested (tokenize (p.sanitizeCore input)) = true := by
+  obtain ⟨ws, toks, hrun, ⟨hbytes, hprov⟩, hout⟩ := C09_events p hp.noUnsafe input hwn
+  have hseg : ∀ k ∈ toks, SegOK k := by
+    intro k hk
+    obtain ⟨t, ht, hpr⟩ := hprov k hk
+    exact prov_segOK hp (tokenize_wf input t ht) hpr
+  have hb : p.sanitizeCore input = renderAll toks := by
+    unfold Policy.sanitizeCore Policy.sanitizeTokens
+    rw [hrun]
+    simp only
+    unfold TokBytes at hbytes
+    rw [hbytes, flatten_map_render]
+  rw [hb, tokenize_renderAll toks hseg]
+  unfold wellNested
+  rw [wn_coalesce]
+  exact hout
 
 example :
     let p : Policy := { initialized := true, elsAndAttrs := [(b!"a", [(b!"href", [none])]), (b!"b", []), (b!"img", [(b!"src", [none])])],
